@@ -10,7 +10,6 @@ import (
 	"os/exec"
 	"path/filepath"
 	"runtime"
-	"runtime/pprof"
 	"strings"
 	"sync/atomic"
 	"time"
@@ -1074,8 +1073,6 @@ func c39TypeName(b []byte) string {
 	return "unknown"
 }
 
-var c39DevTrace = os.Getenv("VERIF_C39_DEV_TRACE") != ""
-
 const (
 	c39AllocC     = 4
 	c39AllocSlack = 64 << 10
@@ -1120,13 +1117,6 @@ func c39ReadHostile(r *vkit.Run, st *c39Stats, h *c39Hostile, measure bool) {
 			declared = binary.BigEndian.Uint32(h.Stream[start+4:start+8]) & 0xffffff
 		}
 		tname := c39TypeName(h.Stream[start:])
-		if c39DevTrace && tname == "data" && declared > 1<<20 {
-			kinds := ""
-			for _, x := range h.Frames {
-				kinds += x.Kind + ","
-			}
-			fmt.Fprintf(os.Stderr, "BIGDATA origin=%s declared=%d start=%d n=%d kinds=%s\n", h.Origin, declared, start, n, kinds)
-		}
 		var f bfe_spdy.Frame
 		var rerr error
 		if measure {
@@ -1401,15 +1391,21 @@ func c39GiantCase(zhdr []byte, typ uint16, shape string, announce uint32) *c39Ho
 func c39(r *vkit.Run) {
 	r.SetRule("(1) round trip: sequences of 1..8 frames (all 9 writable types; 31-bit ids, 3-bit priority, 24-bit settings ids, non-zero ids/status where the writer demands it) written through ONE Framer and read back through ONE Framer " +
 		"(zlib context carried across the sequence), delivered whole / in random chunks / byte by byte; header names: lower/upper/mixed ASCII, pseudo names, non-ASCII lower and upper case, separators, control bytes, NUL, 200..600 byte names, " +
-		"up to 1024 names; values: empty, zero values, arbitrary bytes incl. NUL, up to 3 KB; class len-changing-name (1 in 20) puts one name whose Unicode lower-casing changes its byte length (U+0130, U+212A, U+2126, U+023A, U+1E9E, invalid UTF-8) into one frame; " +
-		"class size-sweep (1 in 20) carries one incompressible value whose size sweeps 3500..12500. Expected: every frame read back with equal fields (control header incl. length, flags, ids), headers equal as (name under case folding, NUL-joined value) pairs, " +
-		"reader exactly at the frame end after every frame, (nil, EOF) after the last. Excluded: names equal under case folding within one frame, the hop-by-hop names the reader rejects by design (connection, host, keep-alive, proxy-connection, transfer-encoding), " +
-		":path > 8 KB, > 1024 headers/settings (reader limits), values compared NUL-joined (SPDY's own multi-value encoding). " +
-		"(2) hostile streams: (a) mutations (bit flip, +-1, random byte, truncate, insert) of the wire bytes of (1); (b) crafted streams of 1..4 frames + a PING: header frames whose block is built from stored deflate blocks " +
-		"(wrong numHeaders, name/value lengths +-1 / beyond the data / up to 16 MiB, upper-case, empty, duplicate, forbidden names, truncated blocks, declared frame length +-1, below the fixed part, random), " +
-		"RST/PING/GOAWAY/WINDOW_UPDATE/SETTINGS with every declared length 0..20, data frames, unknown types/versions, random bytes. Oracle: no panic; never (frame, error) together or (nil, nil); after every SUCCESSFUL ReadFrame the reader stands at 8 + declared length " +
-		"(nothing is demanded after an error: the only caller drops the connection); in the single-goroutine phase TotalAlloc delta of one ReadFrame <= 4*(declared length*1032 + 64 KiB). " +
-		"Announcements of 2^30..2^32-1 bytes run in a re-executed child under ulimit -v 2 GiB. Non-trivial = sequence with >= 1 header-bearing frame, or hostile stream that is not purely random bytes; distinct = hash of the wire bytes + delivery mode.")
+		"up to 1024 names; values: empty, zero values, arbitrary bytes incl. NUL, up to 3 KB; class len-changing-name (1 in 20) ends with a header frame whose single name SHRINKS when lower-cased (U+212A, U+2126, U+1E9E; value 1..4 bytes, so that the length a " +
+		"desynchronised reader sees stays below 2^24); names that GROW when lower-cased (U+0130, U+023A, invalid UTF-8) are written in-process and read back in a child under ulimit -v (phase 5); " +
+		"class size-sweep (1 in 20) carries one incompressible value whose size sweeps 3500..12500 so the compressed block ends at every offset relative to the inflater's 4096-byte reads. Expected: every frame read back with equal fields " +
+		"(control header incl. length, flags, ids), headers equal as (name under case folding, NUL-joined value) pairs, reader exactly at the frame end after every frame, (nil, EOF) after the last. " +
+		"Excluded: names equal under case folding within one frame, the hop-by-hop names the reader rejects by design (connection, host, keep-alive, proxy-connection, transfer-encoding), :path > 8 KB, > 1024 headers/settings (reader limits); " +
+		"values are compared NUL-joined (SPDY's own multi-value encoding). " +
+		"(2) hostile streams: (a) mutations of the wire bytes of (1): truncation anywhere; bit flip / +-1 / random byte on frame headers (not the top length byte), fixed fields and data-frame bodies; inserted bytes at frame starts - " +
+		"never inside a compressed block and never the type of a header frame, because what a damaged block inflates to cannot be bounded beforehand and 16 workers run at once; " +
+		"(b) crafted streams of 1..4 frames + a PING: header frames whose block is built from stored deflate blocks, so the decompressed content is chosen directly " +
+		"(wrong numHeaders incl. 1024/1025/2^31/2^32-1, name/value lengths beyond the data by 1..8, <=70000, <=128 KiB (16 MiB in the single-goroutine phase), upper-case, empty, duplicate, forbidden names, truncated blocks, " +
+		"declared frame length -1, +1, below the fixed part, random - the last three end the stream, because they let the inflater run into whatever follows), " +
+		"RST/PING/GOAWAY/WINDOW_UPDATE/SETTINGS with every declared length 0..20 and wrong setting counts, data frames, unknown types/versions, random bytes. Oracle: no panic; never (frame, error) together or (nil, nil); " +
+		"after every SUCCESSFUL ReadFrame the reader stands at 8 + declared length (nothing is demanded after an error: the only caller drops the connection); in the single-goroutine phase TotalAlloc delta of one ReadFrame <= 4*(declared length*1032 + 64 KiB) " +
+		"(valid traffic from the real writer is measured too and its peak share of the limit is recorded). Announcements of 2^30..2^32-1 bytes run in a re-executed child under ulimit -v 2 GiB (phase 4). " +
+		"Non-trivial = sequence with >= 1 header-bearing frame, or hostile stream that is not purely random bytes; distinct = hash of the wire bytes + delivery mode.")
 	r.Assume("zlib stream header (SPDY/3 dictionary id) learned from the first block bfe's own writer emits; crafted blocks use stored deflate blocks only, so no dictionary content is needed")
 	st := &c39Stats{}
 	zhdr, err := c39ZlibHeader()
@@ -1459,25 +1455,13 @@ func c39(r *vkit.Run) {
 		return
 	}
 
-	if p := os.Getenv("VERIF_C39_DEV_PROF"); p != "" { // development only
-		f, _ := os.Create(p)
-		pprof.StartCPUProfile(f)
-		defer pprof.StopCPUProfile()
-	}
 	t0 := time.Now()
 	phase := func(name string) {
 		fmt.Fprintf(os.Stderr, "c39: %s done at %.1fs\n", name, time.Since(t0).Seconds())
 	}
 	// ---- phase 1+2a (parallel): round trips, each followed by mutations of its wire bytes
-	div := 1
-	if d := os.Getenv("VERIF_C39_DEV_DIV"); d != "" { // development only: smaller run
-		fmt.Sscan(d, &div)
-	}
-	nRT := r.N(8000, 250000) / div
+	nRT := r.N(8000, 250000)
 	nMutPer := 2
-	if os.Getenv("VERIF_C39_DEV_NOMUT") != "" {
-		nMutPer = 0
-	}
 	vkit.Parallel(nRT, 0, func(i int) {
 		g := r.Rng("rt", i)
 		w := c39GenRT(g, i)
@@ -1508,7 +1492,7 @@ func c39(r *vkit.Run) {
 
 	phase("roundtrip+mutations")
 	// ---- phase 2b (parallel): crafted hostile streams, announcements <= 128 KiB
-	nCraft := r.N(30000, 600000) / div
+	nCraft := r.N(30000, 600000)
 	vkit.Parallel(nCraft, 0, func(i int) {
 		g := r.Rng("craft", i)
 		h := c39GenHostile(g, zhdr, 128<<10)
@@ -1524,7 +1508,7 @@ func c39(r *vkit.Run) {
 
 	phase("crafted")
 	// ---- phase 3 (single goroutine): allocation bound on crafted streams and on valid sequences
-	nAlloc := r.N(6000, 80000) / div
+	nAlloc := r.N(6000, 80000)
 	for i := 0; i < nAlloc; i++ {
 		g := r.Rng("alloc", i)
 		var h *c39Hostile
